@@ -18,6 +18,7 @@ import (
 	"unsafe"
 
 	"cosmossdk.io/log"
+	"cosmossdk.io/store"
 	cmtdb "github.com/cometbft/cometbft-db"
 	sdkdb "github.com/cosmos/cosmos-db"
 	"github.com/cosmos/cosmos-sdk/baseapp"
@@ -59,7 +60,7 @@ func NewTwinReplica(t *testing.T, ref *Chain, start time.Time) *Chain {
 // committed state is read back from the store.  The new instance gets its node-local configuration through the
 // genuine start-up path: app options (evm.tracer) and baseapp options (minimum-gas-prices).
 // The database handle is the one NewChainApp created internally (rootmulti.Store.db, unexported).
-func TwinRestart(c *Chain, minGasPrices, evmTracer string) error {
+func TwinRestart(c *Chain, minGasPrices, evmTracer string, more ...func(*baseapp.BaseApp)) error {
 	cms := reflect.ValueOf(c.App.CommitMultiStore())
 	if cms.Kind() != reflect.Ptr || cms.IsNil() {
 		return fmt.Errorf("commit multistore is not a pointer")
@@ -73,11 +74,25 @@ func TwinRestart(c *Chain, minGasPrices, evmTracer string) error {
 		return fmt.Errorf("nil database")
 	}
 	opts := simtestutil.AppOptionsMap{flags.FlagHome: chainapp.DefaultNodeHome, "evm.tracer": evmTracer}
+	bopts := append([]func(*baseapp.BaseApp){baseapp.SetChainID(c.S.ChainConstantsConfig.GetCosmosChainID()), baseapp.SetMinGasPrices(minGasPrices)}, more...)
 	app := chainapp.NewEvermint(log.NewNopLogger(), db, nil, true, map[int64]bool{}, chainapp.DefaultNodeHome, 0,
-		c.S.EncodingConfig, opts, baseapp.SetChainID(c.S.ChainConstantsConfig.GetCosmosChainID()), baseapp.SetMinGasPrices(minGasPrices))
+		c.S.EncodingConfig, opts, bopts...)
 	if app.LastBlockHeight() != c.Height-1 {
 		return fmt.Errorf("restarted instance is at height %d, expected %d", app.LastBlockHeight(), c.Height-1)
 	}
 	c.App = app
+	return nil
+}
+
+// TwinNodeStoreOptions: store-level settings of app.toml an operator may choose (start-up options of BaseApp):
+// variant 1 = inter-block cache and a tiny IAVL node cache, variant 2 = IAVL fast node disabled and a huge node cache,
+// anything else = the defaults.
+func TwinNodeStoreOptions(variant int) []func(*baseapp.BaseApp) {
+	switch variant % 3 {
+	case 1:
+		return []func(*baseapp.BaseApp){baseapp.SetInterBlockCache(store.NewCommitKVStoreCacheManager()), baseapp.SetIAVLCacheSize(16)}
+	case 2:
+		return []func(*baseapp.BaseApp){baseapp.SetIAVLDisableFastNode(true), baseapp.SetIAVLCacheSize(2_000_000)}
+	}
 	return nil
 }
